@@ -446,6 +446,7 @@ def part_menu(p):
 
 PART_ORDER = {"v0": 0, "v1": 1, "seed": 2, "near": 3, "big": 4}
 SWEEP_WIDTHS = {"all4": lambda i: 4, "alt1-7": lambda i: 1 if i % 2 == 0 else 7, "w2.5": lambda i: 2.5}
+WIDE = {"w400": lambda i: 400}  # heavy blocks: the summed displacement against a bound reaches ~1e7
 SWEEP_CONFIGS = [{}, {"minPos": None}, {"maxPos": 300}, "fit-exact"]
 SWEEP_BIG = {"maxPos": 300, "algorithm": "simple"}  # the overlap distributor is cubic in the cluster size: minutes at n=200
 
@@ -467,7 +468,7 @@ def minisweep_cases(ns_list):
 
 def sweep_cases(ns_list, configs=None, pitches=None):
     for n in ns_list:
-        for wname, wf in SWEEP_WIDTHS.items():
+        for wname, wf in list(SWEEP_WIDTHS.items()) + (list(WIDE.items()) if n >= 100 else []):
             ws = [wf(i) for i in range(n)]
             gap = (ws[0] + ws[min(1, n - 1)]) / 2 + 3
             for pitch in (pitches if pitches is not None else (0, 0.5, 1, 3, gap / 2, gap - 0.5)):
